@@ -160,6 +160,10 @@ def tool_history(ctx):
 def run(ctx):
     n = 1500 if ctx.thorough() else 300
     core.check_props(ctx, PROPS)
+    from vlib import ties2
+    # verify_link_signature_thresholds - the function that holds the name check - regenerated from the source and proved
+    # equal to the model's (Tie/C02.v, shared with C02; source_wrong_step_never_verified is the C08 statement about it)
+    ties2.run_flag(ctx, "--authorise", "Fun02.v", "Tie/C02.v")
     opt_sets = [
         {"link_variants": ["honest"] * 3 + ["replayed_name"], "p_sub": 0.05, "vary_keys": False},
         {"link_variants": ["honest", "replayed_name", "wrong_signer", "edited"], "p_sub": 0.1, "format": "mb"},
@@ -176,7 +180,9 @@ def run(ctx):
                         "verification core disagrees with the model (step-name binding)",
                         relevant=lambda r: any(t.startswith("link_replayed_name") for t in r["scen"]["tags"]),
                         extra_cov={"pinned": summary},
-                        assumptions=["theorems about Model/Verify.v; tie: differential run of in_toto_verify on generated supply chains "
+                        assumptions=["theorems about Model/Verify.v; Tie/C02.v: verify_link_signature_thresholds regenerated from the source "
+                                     "(method calls on metadata objects as oracles) proved equal to the model's function, hence "
+                                     "source_wrong_step_never_verified; correspondence: differential run of in_toto_verify on generated supply chains "
                                      "including links replayed under another step's file name; pinned D8 regressions: both formats, "
                                      "both directions of an ordered pair of steps sharing a functionary, with and without rules that "
                                      "would notice, next to a valid link, inside a sublayout; a copied sublayout file is exempt"])
